@@ -295,6 +295,14 @@ class DCAwareRoundRobinPolicy(LoadBalancingPolicy):
                          "or limit contact points to local cluster nodes" %
                          (self.local_dc, host.endpoint))
                 del self._endpoints
+                # hosts whose datacenter is not known yet were filed under the
+                # empty local_dc; _dc() maps them to the inferred one from now on
+                with self._hosts_lock:
+                    unlocated_hosts = self._dc_live_hosts.pop('', ())
+                    if unlocated_hosts:
+                        current_hosts = self._dc_live_hosts.get(self.local_dc, ())
+                        self._dc_live_hosts[self.local_dc] = current_hosts + tuple(
+                            h for h in unlocated_hosts if h not in current_hosts)
 
         dc = self._dc(host)
         with self._hosts_lock:
